@@ -52,6 +52,8 @@ def run_automaton(case):
     multi = any(v > 1 for v in pairs.values())
     if multi:
         cls.append("several_labels_per_edge")
+    if any(v >= 9 for v in pairs.values()):
+        cls.append("nine_or_more_labels_on_an_edge")
     if RT.used_states(kind, spec) != set(spec["Q"]):
         cls.append("isolated_states")
     return {"nt": len(spec["Q"]) >= 2 and multi, "cls": cls, "out": {"text_lines": text.count("\n") + 1}}
@@ -112,6 +114,8 @@ def run_cfg(case):
 @st.composite
 def automaton_cases(draw, tier):
     kind = draw(st.sampled_from(["dfa", "nfa", "pda", "tm"]))
+    if draw(st.integers(0, 7)) == 0:
+        return {"kind": kind, "spec": draw(GX.wide_text_specs(kind)), "wide": True}
     return {"kind": kind, "spec": draw(GX.text_specs(kind, max_states=4 if tier == "quick" else 5))}
 
 
